@@ -187,6 +187,7 @@ pub fn gen_exec_scenario(id: &str, run_seed: u64) -> Result<Scenario, String> {
         exec: Some(plan),
         info: Some(info),
         walk: None,
+        comp: None,
     })
 }
 
